@@ -119,6 +119,12 @@ class Closing(namedtuple("Closing", "obj")):
     __slots__ = ()
 
 
+class Suppress(namedtuple("Suppress", "names")):
+    """contextlib.suppress(E1, E2, ...): swallows exceptions of these classes raised in the with-body."""
+
+    __slots__ = ()
+
+
 class Opaque(namedtuple("Opaque", "tag")):
     """A value we know nothing about except a tag (e.g. lambda, nested function)."""
 
@@ -401,6 +407,8 @@ class Domain:
     def with_enter(self, item, value, state):
         if isinstance(value, Closing):
             return [("ok", value.obj, state)]
+        if isinstance(value, Suppress):
+            return [("ok", NONE, state)]
         out = [("ok", TOP, state)]
         out += self.call_raises(item.context_expr, state)
         return out
@@ -1020,6 +1028,16 @@ class Interp:
                 for s2 in entries:
                     body = self._with(st, i + 1, s2, trace, ctx)
                     for (kind, s3, v3), t3 in body.d.items():
+                        if isinstance(cmval, Suppress) and kind == "exc":
+                            # contextlib.suppress: decided like an `except (names): pass` around the body
+                            fake = ast.ExceptHandler(type=ast.Tuple(elts=[ast.Name(id=n, ctx=ast.Load()) for n in cmval.names], ctx=ast.Load()), name=None, body=[])
+                            fake.lineno = st.lineno
+                            m, narrowed = self.match(fake, v3)
+                            if m in ("yes", "maybe"):
+                                o.add("norm", self.dom.on_catch(fake, narrowed, s3), None, _tr(t3, "suppressed-by-with@%d" % st.lineno))
+                            if m in ("no", "maybe"):
+                                o.add(kind, s3, v3, t3)
+                            continue
                         for r2 in self.dom.with_exit(item, cmval, kind, s3):
                             if r2[0] == "exc":
                                 self._emit_excs(o, [(r2[1], r2[2])], t3)
@@ -1379,6 +1397,9 @@ class Interp:
                 kwargs[k.arg if k.arg is not None else "**%d" % len(kwargs)] = v
             if _dotted(e.func) in ("contextlib.closing", "closing") and len(args) == 1:
                 out.append((Closing(args[0]), s))
+                continue
+            if _dotted(e.func) in ("contextlib.suppress", "suppress") and args and not kwargs and all(_cls_name(a) is not None for a in e.args):
+                out.append((Suppress(tuple(_cls_name(a).split(".")[-1] for a in e.args)), s))
                 continue
             if isinstance(e.func, ast.Name) and e.func.id == "isinstance" and len(args) == 2 and isinstance(args[0], ExcVal):
                 verdict = self._isinstance_exc(args[0], args[1])
